@@ -173,6 +173,10 @@ class CFG(object):
 
 
 # ---------------------------------------------------------------------- facts
+_POS = {}
+PRED_INLINER = None  # set by the engine: Program.inline_pred
+
+
 def facts(test, polarity):
     """Atomic facts implied by `test` evaluating to `polarity`: list of (atom_expr, bool).
     not X -> flips; (A and B) true -> both true; (A or B) false -> both false; otherwise the test itself."""
@@ -191,6 +195,20 @@ def facts(test, polarity):
                 out.extend(facts(v, False))
             return out
         return [(test, polarity)]
+    if isinstance(test, ast.Call) and PRED_INLINER is not None:
+        e = PRED_INLINER(test)
+        if e is not None:
+            return facts(e, polarity)
+    if isinstance(test, ast.Compare) and len(test.ops) == 1 and isinstance(test.ops[0], (ast.NotEq, ast.IsNot, ast.NotIn)):
+        # a != b  <=>  not (a == b): report the positive atom with the flipped polarity
+        pos = {ast.NotEq: ast.Eq, ast.IsNot: ast.Is, ast.NotIn: ast.In}[type(test.ops[0])]()
+        atom = _POS.get(id(test))
+        if atom is None:
+            atom = ast.copy_location(ast.Compare(left=test.left, ops=[pos], comparators=test.comparators), test)
+            atom._parent = getattr(test, "_parent", None)
+            atom._negated_from = test
+            _POS[id(test)] = atom
+        return [(atom, not polarity)]
     return [(test, polarity)]
 
 
